@@ -1197,6 +1197,35 @@ func (b *bgen) injectScenario(name string, rootDefs, paths M, aux map[string]M, 
 			paths["/scn/alias-owner"] = M{"get": resp(M{"$ref": "#/definitions/aliasOwner"})}
 		}
 		g.hit("scenario:alias-to-pointer")
+	case "pointer-inside-moved":
+		// an anonymous pointer to a sub-schema T of a root definition, T holding an anonymous pointer of its own (in its
+		// items, additionalProperties or a property) to a sub-schema of another root definition: when T is moved to a new
+		// definition (it is referred to twice, or complex), the inner pointer moves with it
+		inner := g.pick([]string{"since", "detail"})
+		rootDefs["ptrEntry"] = M{"type": "object", "properties": M{
+			"since":  M{"type": "string", "format": "date"},
+			"detail": M{"type": "object", "properties": M{"d": M{"type": "string"}}}}}
+		innerRef := M{"$ref": "#/definitions/ptrEntry/properties/" + inner}
+		var t M
+		switch g.n(3) {
+		case 0:
+			t = M{"type": "array", "items": innerRef}
+		case 1:
+			t = M{"type": "object", "additionalProperties": innerRef}
+		default:
+			t = M{"type": "object", "properties": M{"one": innerRef, "n": M{"type": "integer"}}}
+		}
+		rootDefs["ptrCatalog"] = M{"type": "object", "properties": M{"entries": t, "total": M{"type": "integer"}}}
+		outer := M{"$ref": "#/definitions/ptrCatalog/properties/entries"}
+		pi := M{"get": resp(outer)}
+		if g.p(0.7) {
+			pi["put"] = resp(M{"$ref": "#/definitions/ptrCatalog/properties/entries"})
+		}
+		paths["/scn/ptr-inside"] = pi
+		if g.p(0.5) {
+			paths["/scn/ptr-owners"] = M{"get": resp(M{"$ref": "#/definitions/ptrCatalog"}), "put": resp(M{"$ref": "#/definitions/ptrEntry"})}
+		}
+		g.hit("scenario:pointer-inside-moved")
 	case "collide-sibling-refs":
 		// two imported, $ref-free definitions collide with root definitions; the $ref to the first one has a schema-bearing
 		// sibling that holds the $ref to the second one: re-inlining the first overwrites the holder of the second
